@@ -266,7 +266,7 @@ func Tokenize(source string) ([]Token, error) {
 				c0 = char(source, i)
 				appended := false
 
-				if match := regexp.MustCompile(`^\\(x[0-9a-fA-F]{2}|[0-7]{3}|u[0-9a-fA-F]{4}|U[0-9a-fA-F]{8}|.)`).FindString(source[i:]); !raw && match != "" {
+				if match := regexp.MustCompile(`(?s)^\\(x[0-9a-fA-F]{2}|[0-7]{3}|u[0-9a-fA-F]{4}|U[0-9a-fA-F]{8}|.)`).FindString(source[i:]); !raw && match != "" {
 					// Convert escaped character to be a control character (https://pkg.go.dev/strconv#Unquote).
 					parsed, err := strconv.Unquote(fmt.Sprintf(`"%s"`, match))
 
